@@ -21,11 +21,11 @@ func TestVerifClientFree(t *testing.T) {
 	tw := newTrace(t)
 	defer tw.close()
 	runs := envInt("VERIF_FREE_RUNS", 10)
-	for run := 0; run < runs; run++ {
+	for run := 0; run < runs && freeStuck < 3; run++ {
 		freeRun(tw, run, 0)
 	}
 	// many goroutines call Close on the same client at the same moment
-	for trial := 0; trial < envInt("VERIF_CLOSE_STORM", 0); trial++ {
+	for trial := 0; trial < envInt("VERIF_CLOSE_STORM", 0) && freeStuck < 3; trial++ {
 		closeStorm(tw, trial)
 	}
 	// sequential churn: thousands of transactions one after the other through the same pools
@@ -33,6 +33,10 @@ func TestVerifClientFree(t *testing.T) {
 		freeRun(tw, 1000, n)
 	}
 }
+
+// freeStuck counts the free-running runs of this process that reported stuck goroutines: after a few of them the
+// remaining runs are skipped (each one waits out its watchdogs)
+var freeStuck int
 
 func freeRun(tw *traceWriter, run int, churn int) {
 	r := rand.New(rand.NewSource(seed()*7907 + int64(run)))
@@ -225,6 +229,7 @@ func freeRun(tw *traceWriter, run int, churn int) {
 	case <-time.After(30 * time.Second):
 		buf := make([]byte, 1<<16)
 		k := runtime.Stack(buf, true)
+		freeStuck++
 		emit(map[string]interface{}{"k": "stuck", "report": string(buf[:k])})
 	}
 	// let the remaining transactions run into their responses / timeouts, then close (if not closed yet)
@@ -251,6 +256,7 @@ func freeRun(tw *traceWriter, run int, churn int) {
 		case <-time.After(10 * time.Second):
 			buf := make([]byte, 1<<16)
 			k := runtime.Stack(buf, true)
+			freeStuck++
 			emit(map[string]interface{}{"k": "stuck", "report": "Close did not return: " + string(buf[:k])})
 		}
 	}
@@ -367,6 +373,7 @@ func closeStorm(tw *traceWriter, trial int) {
 	case <-time.After(20 * time.Second):
 		buf := make([]byte, 1<<16)
 		k := runtime.Stack(buf, true)
+		freeStuck++
 		emit(map[string]interface{}{"k": "stuck", "report": "concurrent Close calls did not all return: " + string(buf[:k])})
 	}
 	emit(map[string]interface{}{"k": "end", "drifted": false, "free": true})
